@@ -11,14 +11,18 @@ unsigned cqv_skip_depth;
 #include "src/core/buffer.c"
 #include "src/thrift/thrift_decode.c"
 
+/* The decoder struct is a STATIC object, not a malloc'ed one: for arrays inside dynamic objects CBMC
+ * only checks the upper bound against the whole object, so last_field_id[-1] (which lands on
+ * reader.pos) would go unnoticed; for a static object both member-array bounds are checked. */
+static thrift_decoder_t g_d;
 static thrift_decoder_t *mk_dec(void) {
-  thrift_decoder_t *d = malloc(sizeof(*d));
-  __CPROVER_assume(d != NULL);
+  thrift_decoder_t *d = &g_d;
+  thrift_decoder_t any; /* uninitialised: every field arbitrary (status, error_message, last_field_id[], bools) */
+  g_d = any;
   size_t n = nondet_size_t();
   __CPROVER_assume(n <= CQV_MAXBUF);
   uint8_t *buf = malloc(n);
   __CPROVER_assume(buf != NULL);
-  /* malloc'ed memory is arbitrary: status, error_message, last_field_id[], bools all nondet */
   d->reader.data = buf;
   d->reader.size = n;
   __CPROVER_assume(d->reader.pos <= n);
@@ -97,7 +101,6 @@ void h_td_string_alloc(void) {
     free(s);
   }
   free((void *)buf);
-  free(d);
   CQV_CANARY("string_alloc harness end");
 }
 void h_td_struct_begin(void) { thrift_decoder_t *d = mk_dec(); thrift_read_struct_begin(d); CQV_CANARY("struct_begin returns"); }
